@@ -258,7 +258,7 @@ func (e *Exec) loopCut(st *State, fr *Frame, b, pred *ssa.BasicBlock) bool {
 			sort.Strings(keys)
 			var fs []*Term
 			for _, k := range keys {
-				h, ok := snap.headMem[k]
+				h, ok := e.headMemOf(snap, k)
 				if !ok || h == st.mem[k] {
 					continue
 				}
@@ -466,7 +466,15 @@ func (e *Exec) loopCut(st *State, fr *Frame, b, pred *ssa.BasicBlock) bool {
 		nm := fmt.Sprintf("%s/loop:%s/inv-sat", fname, ord)
 		if e.oblIdx[nm] == nil {
 			o := &Obligation{Name: nm, Kind: "cover", Expect: "sat", Func: fr.fn.String(), Meta: map[string]string{}}
-			o.VCs = append(o.VCs, &VC{Asserts: append([]*Term{True}, st.pc...), Seq: nextVCSeq()})
+			// quantified conjuncts are dropped from the guard: a satisfiability answer for them is not something the
+			// solvers give reliably (the guard is about contradictions among the ground facts)
+			as := []*Term{True}
+			for _, p := range st.pc {
+				if p.Op != "forall" && p.Op != "exists" && !p.Bound {
+					as = append(as, p)
+				}
+			}
+			o.VCs = append(o.VCs, &VC{Asserts: as, Seq: nextVCSeq()})
 			e.oblIdx[nm] = o
 			e.obls = append(e.obls, o)
 		}
@@ -475,6 +483,7 @@ func (e *Exec) loopCut(st *State, fr *Frame, b, pred *ssa.BasicBlock) bool {
 	for k, v := range st.mem {
 		ns.headMem[k] = v
 	}
+	ns.headState = st.Clone()
 	if spec.Decreases != "" {
 		ns.dec = coerceInt(e.evalSpec(spec.Decreases, env), tInt).One()
 	}
@@ -596,7 +605,7 @@ func (e *Exec) panicSummarized(st *State, fr *Frame, pv *Term) bool {
 			sort.Strings(keys)
 			var fs []*Term
 			for _, k := range keys {
-				hm, ok := snap.headMem[k]
+				hm, ok := e.headMemOf(snap, k)
 				if !ok || hm == st.mem[k] {
 					continue
 				}
@@ -723,4 +732,22 @@ func (e *Exec) noExplicitPanicCheck(st *State, fr *Frame, blk *ssa.BasicBlock) {
 			}
 		}
 	}
+}
+
+
+// headMemOf: the memory of key k at the loop head. A memory sort that was not
+// touched before the head has, at the head, its canonical initial array
+// (provided no unframed havoc happened before: then nothing is known and the
+// comparison is skipped, as it would be unprovable).
+func (e *Exec) headMemOf(snap *loopSnapshot, k string) (*Term, bool) {
+	if h, ok := snap.headMem[k]; ok {
+		return h, true
+	}
+	if snap.headState == nil || snap.headState.epoch > 0 {
+		return nil, false
+	}
+	tmp := snap.headState.Clone()
+	e.ensureMem(tmp, k)
+	h, ok := tmp.mem[k]
+	return h, ok
 }
